@@ -243,7 +243,7 @@ func wrapperFunc(m dsl.Matcher) {
 	m.Match(`$i := strings.Index($s, $sep); $*_; $x, $y = $s[:$i], $s[$i+1:]`,
 		`$i := strings.Index($s, $sep); $*_; $x = $s[:$i]; $*_; $y = $s[$i+1:]`).
 		Where(m.GoVersion().GreaterEqThan("1.18")).
-		Suggest("$x, $y, _ = strings.Cut($s, $sep)")
+		Report("suggestion: $x, $y, _ = strings.Cut($s, $sep)") // report only: as an edit it would replace the statements matched by $*_ too
 
 	m.Match(
 		`if $i := strings.Index($s, $sep); $i != -1 { $*_; $x, $y = $s[:$i], $s[$i+1:]; $*_ }`,
@@ -251,7 +251,7 @@ func wrapperFunc(m dsl.Matcher) {
 		`if $i := strings.Index($s, $sep); $i >= 0 { $*_; $x, $y = $s[:$i], $s[$i+1:]; $*_ }`,
 		`if $i := strings.Index($s, $sep); $i >= 0 { $*_; $x = $s[:$i]; $*_; $y = $s[$i+1:]; $*_ }`).
 		Where(m.GoVersion().GreaterEqThan("1.18")).
-		Suggest("if $x, $y, ok = strings.Cut($s, $sep); ok { ... }")
+		Report("suggestion: if $x, $y, ok = strings.Cut($s, $sep); ok { ... }") // report only: the elided body is not an edit
 
 	m.Match(`bytes.SplitN(b, []byte("."), -1)`).Report("use bytes.Split method in `$$`")
 	m.Match(`bytes.Replace($_, $_, $_, -1)`).Where(m.GoVersion().GreaterEqThan("1.12")).Report("use bytes.ReplaceAll method in `$$`")
